@@ -520,7 +520,7 @@ pub fn run(ctx: &Ctx) -> Report {
     }
 
     // 2. random noise and mutated valid ids
-    let n_noise = if miri { 40 } else { ctx.pick(20_000, 400_000) } / ctx.nshards;
+    let n_noise = if miri { 40 } else { ctx.pick(200_000, 800_000) } / ctx.nshards;
     {
         let mut ck = Checker { rep: &mut rep };
         for k in 0..n_noise {
@@ -582,7 +582,7 @@ pub fn run(ctx: &Ctx) -> Report {
             ck.check_str(&s, true);
         }
         // 4. protobuf key blobs of every length 0..=100 (+ a few beyond)
-        let per_len = if miri { 1 } else { ctx.pick(12, 200) } / ctx.nshards.min(4).max(1) + 1;
+        let per_len = if miri { 1 } else { ctx.pick(60, 300) } / ctx.nshards.min(4).max(1) + 1;
         for len in (0..=100usize).chain([101, 127, 128, 255, 256, 1000]).filter(|l| !miri || l % 7 == 0) {
             for j in 0..per_len {
                 let mut blob = rng.bytes(len);
@@ -601,7 +601,7 @@ pub fn run(ctx: &Ctx) -> Report {
         }
         ck.rep.sample(json!({"kind":"blob","lengths":"0..=100,101,127,128,255,256,1000","per_length":per_len}));
         // 5. ed25519 keys
-        let nkeys = if miri { 0 } else { ctx.pick(1_000, 20_000) } / ctx.nshards + 1;
+        let nkeys = if miri { 0 } else { ctx.pick(8_000, 40_000) } / ctx.nshards + 1;
         for k in 0..nkeys {
             let mut s = [0u8; 32];
             rng.fill(&mut s);
